@@ -244,9 +244,10 @@ let run_cli (line_parts : string list) : string =
           let direct = List.filter_map (fun o -> match o with
               | COHeaders (sid, es, blk) -> Some (Printf.sprintf "H%d:%d:%s" (int_of_n sid) (cb2i es) (hex_of_bytes blk))
               | COData (sid, es, p) -> Some (Printf.sprintf "D%d:%d:%s" (int_of_n sid) (cb2i es) (proj p))
+              | CORst (sid, code) when int_of_n code = 2 -> Some (Printf.sprintf "R%d:2" (int_of_n sid))
               | _ -> None) fresh in
           let queued = List.filter_map (fun o -> match o with
-              | CORst (sid, code) -> Some (Printf.sprintf "R%d:%d" (int_of_n sid) (int_of_n code))
+              | CORst (sid, code) when int_of_n code <> 2 -> Some (Printf.sprintf "R%d:%d" (int_of_n sid) (int_of_n code))
               | COWinUpd (sid, inc) -> Some (Printf.sprintf "W%d:%s" (int_of_n sid) (dec_of_zc inc))
               | COSettingsAck -> Some "SA"
               | COPing -> Some "P"
